@@ -21,7 +21,7 @@ for p in props:
 na=[{"property_id":p['id'],"reason":claimed.get('_pending_reason')} for p in props if p['id'] not in claimed]
 m={
  "version":1,
- "setup_cmd":"cd lean && lake build",
+ "setup_cmd":"cd lean && lake build "+" ".join(f"Flax.Props.{c['property_id']} drv_{c['property_id'].lower()}" for c in checks),
  "hooks":{"guard":"GOOGLE_FLAX_VERIF","enable":"none: no source hooks are needed; checks import flax from /repo's working tree in-process with the harness-side JAX compat shim harness/compat.py",
           "baseline_off_cmd":"cd /repo && /venv/bin/python -m pytest -ra -q -p no:cacheprovider --timeout=900 --continue-on-collection-errors",
           "source_commits":[],"add_only":True},
